@@ -210,9 +210,9 @@ static void build_ops() {
 	}
 #endif
 #if VX_SER
-	if (opt.og & OG_SERIAL) { add(OP_SAVE); for (int k_i = 0, k = g_ids[0]; k_i < g_nids; ++k_i, k = g_ids[k_i < g_nids ? k_i : 0]) add(OP_LOAD, k);
+	if (opt.og & OG_SERIAL) { add(OP_SAVE); for (int k_i = 0, k = g_ids[0]; k_i < g_nids; ++k_i, k = g_ids[k_i < g_nids ? k_i : 0]) { add(OP_LOAD, k); add(OP_LOAD, k, 1); add(OP_LOAD, k, 2); }
 #if VX_MANUAL
-		add(OP_LOAD, N);
+		add(OP_LOAD, N); add(OP_LOAD, N, 1);
 #endif
 	}
 #endif
@@ -241,7 +241,8 @@ static bool op_enabled(const Op& op, const Abs& pre) {
 	case OP_ENTER: return !active && tx_empty(pre.req);
 	case OP_REPLAY_E: return !active && tx_empty(pre.req);
 	case OP_EXIT: case OP_DESTROY: return active && tx_empty(pre.req);
-	case OP_LOAD: return VX_MANUAL ? (op.a != N || !active || tx_empty(pre.req)) : active;   // loading 'inactive' runs the final exit, which asserts that no request is outstanding
+	case OP_LOAD: if (op.b && op.a != (active ? pre.active : N)) return false;   /* the round trip through a reused buffer re-loads the current activity */
+		return VX_MANUAL ? (op.a != N || !active || tx_empty(pre.req)) : active;   // loading 'inactive' runs the final exit, which asserts that no request is outstanding
 	case OP_SAVE: return VX_MANUAL ? true : active;
 	case OP_COPY: return true;
 	case OP_ATTACH: return true;
